@@ -4,7 +4,8 @@ import ConduitModel.Generated.Ctl
 import ConduitModel.Driver.Util
 
 /-
-Driver component `crud` (C14): a case line is a history of API / environment ops
+Driver component `crud` (C14): a case line is a history of API / environment ops (plus
+`sf <id> <status>`: a lifecycle status write whose store Set fails)
 (`;`-separated, optional `!k` = the k-th store operation of that call fails); see
 harness/cmd/h_ctl/crud.go for the grammar. Output: per op
 `<class>#<memory dump>#<reload or =>#<raw keys or =>` joined by ` | `, then ` mon=ok` or
@@ -57,22 +58,43 @@ def errStr : Except Err Unit → String
   | .error .inv => "inv" | .error .st => "st" | .error .panic => "panic"
   | .error .stale => "stale" | .error .unauth => "unauth" | .error .life => "life"
 
-/-- run the history; collect per-op output and the first monitor failure. -/
-def crudRun (v : Variant) : St → Nat → List (Op × Option Nat) → List String → Option String → List String × Option String
-  | _, _, [], outs, mon => (outs.reverse, mon)
-  | s, i, (op, k) :: rest, outs, mon =>
+/-- a step of a `crud` history: an op of the model's `Op` language, or `sf <id> <status>` — the
+lifecycle's status write whose store `Set` fails (the nodes are already running / stopped, the
+write is only the record of it): memory keeps the new status, the store the old one. -/
+inductive CStep where
+  | op (o : Op) (k : Option Nat)
+  | statusFail (id : Id) (st : Nat)
+
+def parseCStep (s : String) : Option CStep :=
+  match words s with
+  | ["sf", i, st] => do pure (.statusFail (← i.toNat?) (← st.toNat?))
+  | _ => (parseStep s).map fun (o, k) => .op o k
+
+/-- run the history; collect per-op output and the first monitor failure. After a failed status
+write memory and store differ *in that status* by design, so the memory = store clause is not
+judged any more on that history (all-or-nothing, guards and references still are). -/
+def crudRun (v : Variant) : St → Nat → Bool → List CStep → List String → Option String → List String × Option String
+  | _, _, _, [], outs, mon => (outs.reverse, mon)
+  | s, i, div, .op op k :: rest, outs, mon =>
     let r := exec v s op k
     let mon := match mon with
       | some m => some m
-      | none => (stepMonitor v s op k).map fun why =>
-          s!"{why}:{op.tag}!{match k with | some n => toString n | none => "-"}@{i}"
-    crudRun v r.2 (i + 1) rest ((errStr r.1 ++ "#" ++ observe r.2) :: outs) mon
+      | none =>
+        let why := match stepMonitor v s op k with
+          | some "memstore" => if div then (if !refsB r.2 then some "refs" else none) else some "memstore"
+          | w => w
+        why.map fun why => s!"{why}:{op.tag}!{match k with | some n => toString n | none => "-"}@{i}"
+    crudRun v r.2 (i + 1) div rest ((errStr r.1 ++ "#" ++ observe r.2) :: outs) mon
+  | s, i, div, .statusFail id st :: rest, outs, mon =>
+    let r := (svcPlStatus id st).run { s with ctr := 0, failAt := some 1 }
+    let s' := { r.2 with next := s.next + 1, failAt := none, ctr := 0 }
+    crudRun v s' (i + 1) (div || r.1 == .error .st) rest ((errStr r.1 ++ "#" ++ observe s') :: outs) mon
 
 def crudLineV (v : Variant) (line : String) : String :=
-  match (line.splitOn ";").mapM parseStep with
+  match (line.splitOn ";").mapM parseCStep with
   | none => "bad-op"
   | some steps =>
-    let (outs, mon) := crudRun v St.init 0 steps [] none
+    let (outs, mon) := crudRun v St.init 0 false steps [] none
     " | ".intercalate outs ++ (match mon with | none => " mon=ok" | some m => " mon=FAIL:" ++ m)
 
 /-- the code variant as regenerated from the source. -/
